@@ -1,5 +1,10 @@
 package rules
 
-import "sort"
+import (
+	"go/token"
+	"sort"
+)
 
 func sortStrings(s []string) { sort.Strings(s) }
+
+const subTok = token.SUB
